@@ -2,6 +2,8 @@ use crate::{
     backoff::{self, get_parallelism},
     pointer::KanalPtr,
 };
+#[cfg(kanal_verif)]
+use crate::verif::{core, std};
 use core::{
     cell::UnsafeCell,
     sync::atomic::{fence, AtomicU8, Ordering},
